@@ -1061,11 +1061,13 @@ def lowestdigit(facts: CppFacts):
     return res
 
 
-def enumtext(facts: CppFacts):
-    """R-ENUMTEXT (C19/C06): an enum field can hold any value of its (possibly unsigned 64-bit) underlying type, and the
-    writer prints unnamed values as numbers.  The reader must therefore decode a number that starts with a digit into an
-    unsigned 64-bit variable and only numbers that start with `-` into a signed one; decoding both into int64_t rejects
-    [2^63, 2^64), decoding both into uint64_t rejects negatives."""
+def enumtext(facts: CppFacts, clauses=("decode", "narrow")):
+    """R-ENUMTEXT (C19/C06): an enum field can hold any value of its underlying type, and the writer prints unnamed values
+    as numbers of that type.  The reader is the exact inverse when it decodes a numeric token (leading digit or `-`)
+    into `underlying_type<ValueType>::type` -- DecodeInteger then rejects every number the enum cannot hold.  The older
+    shape (digits into uint64_t, `-` into int64_t, then static_cast<ValueType>) is accepted for the `decode` clause but
+    needs a check that the narrowing cast preserved the value (`narrow` clause, C06: rejected rather than wrapped);
+    decoding both kinds of token into one fixed 64-bit type rejects half of a 64-bit enum's values."""
     res = RuleResult("R-ENUMTEXT")
     TU = "runtime/cpp/emboss_text_util.h"
     fn = [f for f in facts.functions if f.name == "ReadEnumViewFromTextStream"]
@@ -1095,24 +1097,43 @@ def enumtext(facts: CppFacts):
         dm = re.search(r"DecodeInteger\s*\(\s*\w+\s*,\s*&\s*(\w+)\s*\)", blk)
         if not dm:
             continue
-        tm = re.search(r"((?:::)?std::)?(u?int\d+_t)\s+" + re.escape(dm.group(1)) + r"\s*;", blk)
-        branches.append((" ".join(cond.split()), tm.group(2) if tm else None))
+        var = dm.group(1)
+        tm = re.search(r"((?:::)?std::)?(u?int\d+_t)\s+" + re.escape(var) + r"\s*;", blk)
+        um = re.search(r"underlying_type\s*<\s*(?:typename\s+)?[\w:]*ValueType\s*>\s*::\s*type\s+" + re.escape(var) + r"\s*;", blk)
+        typ = "underlying" if um else (tm.group(2) if tm else None)
+        branches.append((" ".join(cond.split()), typ))
+        # narrowing clause: a decoded 64-bit value reaches TryToWrite through static_cast<ValueType>; the branch must
+        # compare the decoded variable with the narrowed value cast back (or range-check it) before the write.
+        if "narrow" in clauses and typ != "underlying" and \
+                re.search(r"static_cast<[^>]*ValueType\s*>\s*\(\s*" + re.escape(var) + r"\s*\)", blk):
+            res.instances += 1
+            after = re.sub(r"static_cast\s*<[^>]*>", "CAST", blk[dm.end():]).replace("->", ".")
+            checked = re.search(r"[^=!<>]=?(==|!=|<=|>=|<|>)[^=]*\b" + re.escape(var) + r"\b|\b" + re.escape(var)
+                                + r"\b\s*(==|!=|<=|>=|<|>)", after)
+            if not checked:
+                res.add(f"{TU}|ReadEnumViewFromTextStream|narrow|{typ or var}",
+                        f"the decoded number `{var}` is narrowed with static_cast<ValueType> and written without checking that "
+                        "the cast preserved it: a number outside the enum's underlying type wraps instead of being rejected",
+                        TU, fn[0].line, "ReadEnumViewFromTextStream")
+        elif "narrow" in clauses:
+            res.instances += 1
     res.instances += 2
     digit = [t for c, t in branches if "isdigit" in c and "'-'" not in c]
     minus = [t for c, t in branches if "'-'" in c and "isdigit" not in c]
     merged = [(c, t) for c, t in branches if "isdigit" in c and "'-'" in c]
-    if merged:
+    if merged and not digit and not minus:
         c, t = merged[0]
-        res.add(f"{TU}|ReadEnumViewFromTextStream|merged", f"numbers starting with a digit and numbers starting with `-` are decoded by one branch "
-                f"(`{c}`) into {t}: {'values from 2^63 to 2^64-1 of an unsigned 64-bit enum' if t == 'int64_t' else 'negative values of a signed enum'} "
-                "are rejected when read from text, although the writer prints them", TU, fn[0].line, "ReadEnumViewFromTextStream")
+        if t != "underlying":
+            res.add(f"{TU}|ReadEnumViewFromTextStream|merged", f"numbers starting with a digit and numbers starting with `-` are decoded by one branch "
+                    f"(`{c}`) into {t}: {'values from 2^63 to 2^64-1 of an unsigned 64-bit enum' if t == 'int64_t' else 'negative values of a signed enum'} "
+                    "are rejected when read from text, although the writer prints them", TU, fn[0].line, "ReadEnumViewFromTextStream")
     else:
-        if digit != ["uint64_t"]:
-            res.add(f"{TU}|ReadEnumViewFromTextStream|digits", f"numbers starting with a digit are decoded into {digit or 'nothing'}, not uint64_t",
-                    TU, fn[0].line, "ReadEnumViewFromTextStream")
-        if minus != ["int64_t"]:
-            res.add(f"{TU}|ReadEnumViewFromTextStream|negative", f"numbers starting with `-` are decoded into {minus or 'nothing'}, not int64_t",
-                    TU, fn[0].line, "ReadEnumViewFromTextStream")
+        if digit not in (["uint64_t"], ["underlying"]):
+            res.add(f"{TU}|ReadEnumViewFromTextStream|digits", f"numbers starting with a digit are decoded into {digit or 'nothing'}, not uint64_t "
+                    "or the enum's underlying type", TU, fn[0].line, "ReadEnumViewFromTextStream")
+        if minus not in (["int64_t"], ["underlying"]):
+            res.add(f"{TU}|ReadEnumViewFromTextStream|negative", f"numbers starting with `-` are decoded into {minus or 'nothing'}, not int64_t "
+                    "or the enum's underlying type", TU, fn[0].line, "ReadEnumViewFromTextStream")
     res.samples = [f"branches: {branches}"]
     res.analysed = [TU]
     return res
